@@ -1,18 +1,24 @@
 // Model of std::collections::BTreeSet for keys from a small fixed vocabulary: a bitmask.
 // Far cheaper for the solver than the sorted-array model (no symbolic insertion shifts), usable
 // when the sliced code only inserts, removes, tests, iterates, extends and compares sets.
-// The key type implements `SmallKey` (index < 16, monotone w.r.t. Ord so iteration stays in
-// ascending key order).  Iterators yield keys BY VALUE (K: Copy); code that needs `&K` items
-// (e.g. `.copied()`) would not compile against this model and needs the sorted-array one.
+// The key type implements `SmallKey` (index < 64, monotone w.r.t. Ord so iteration stays in
+// ascending key order).  Iterators yield `&'static K` taken from the vocabulary table, so
+// `.iter().cloned()`, `.copied()`, `|&k|` patterns etc. work as with std.
 pub trait SmallKey: Copy {
     fn idx(&self) -> u8;
-    fn from_idx(i: u8) -> Self;
+    /// the vocabulary, indexed by idx()
+    fn table<'t>() -> &'t [Self]
+    where
+        Self: 't;
     const N: u8;
+    fn from_idx(i: u8) -> Self {
+        Self::table()[(i % Self::N) as usize]
+    }
 }
 
 #[derive(Clone, Copy)]
 pub struct BTreeSet<K: SmallKey> {
-    pub bits: u16,
+    pub bits: u64,
     _p: core::marker::PhantomData<K>,
 }
 impl<K: SmallKey> Default for BTreeSet<K> {
@@ -24,23 +30,30 @@ impl<K: SmallKey> BTreeSet<K> {
     pub fn new() -> Self {
         Self::default()
     }
-    pub fn model_from_bits(bits: u16) -> Self {
+    pub fn model_from_bits(bits: u64) -> Self {
         BTreeSet { bits, _p: core::marker::PhantomData }
     }
     pub fn insert(&mut self, k: K) -> bool {
-        let m = 1u16 << k.idx();
+        let m = 1u64 << k.idx();
         let fresh = self.bits & m == 0;
         self.bits |= m;
         fresh
     }
-    pub fn remove<Q: SmallKeyRef<K>>(&mut self, k: Q) -> bool {
-        let m = 1u16 << k.key_idx();
+    /// like std: takes `&Q` where the key type can be borrowed as Q (String as str, ...)
+    pub fn remove<Q: ?Sized>(&mut self, k: &Q) -> bool
+    where
+        K: KeyBorrow<Q>,
+    {
+        let m = 1u64 << K::idx_of(k);
         let had = self.bits & m != 0;
         self.bits &= !m;
         had
     }
-    pub fn contains<Q: SmallKeyRef<K>>(&self, k: Q) -> bool {
-        self.bits & (1u16 << k.key_idx()) != 0
+    pub fn contains<Q: ?Sized>(&self, k: &Q) -> bool
+    where
+        K: KeyBorrow<Q>,
+    {
+        self.bits & (1u64 << K::idx_of(k)) != 0
     }
     pub fn len(&self) -> usize {
         self.bits.count_ones() as usize
@@ -51,7 +64,7 @@ impl<K: SmallKey> BTreeSet<K> {
     pub fn clear(&mut self) {
         self.bits = 0;
     }
-    pub fn iter(&self) -> BitIter<K> {
+    pub fn iter(&self) -> BitIter<'_, K> {
         BitIter { bits: self.bits, i: 0, _p: core::marker::PhantomData }
     }
     pub fn is_subset(&self, o: &Self) -> bool {
@@ -63,13 +76,13 @@ impl<K: SmallKey> BTreeSet<K> {
     pub fn is_disjoint(&self, o: &Self) -> bool {
         self.bits & o.bits == 0
     }
-    pub fn intersection(&self, o: &Self) -> BitIter<K> {
+    pub fn intersection<'t>(&'t self, o: &'t Self) -> BitIter<'t, K> {
         BitIter { bits: self.bits & o.bits, i: 0, _p: core::marker::PhantomData }
     }
-    pub fn difference(&self, o: &Self) -> BitIter<K> {
+    pub fn difference<'t>(&'t self, o: &'t Self) -> BitIter<'t, K> {
         BitIter { bits: self.bits & !o.bits, i: 0, _p: core::marker::PhantomData }
     }
-    pub fn union(&self, o: &Self) -> BitIter<K> {
+    pub fn union<'t>(&'t self, o: &'t Self) -> BitIter<'t, K> {
         BitIter { bits: self.bits | o.bits, i: 0, _p: core::marker::PhantomData }
     }
     /// moves all elements of `o` into self, leaving `o` empty
@@ -78,36 +91,38 @@ impl<K: SmallKey> BTreeSet<K> {
         o.bits = 0;
     }
 }
-/// lookups accept the key or a reference to it (std takes `&Q where K: Borrow<Q>`)
-pub trait SmallKeyRef<K: SmallKey> {
-    fn key_idx(&self) -> u8;
+/// the model's counterpart of `K: Borrow<Q>`
+pub trait KeyBorrow<Q: ?Sized> {
+    fn idx_of(q: &Q) -> u8;
 }
-impl<K: SmallKey> SmallKeyRef<K> for K {
-    fn key_idx(&self) -> u8 {
-        self.idx()
+impl<K: SmallKey> KeyBorrow<K> for K {
+    fn idx_of(q: &K) -> u8 {
+        q.idx()
     }
 }
-impl<K: SmallKey> SmallKeyRef<K> for &K {
-    fn key_idx(&self) -> u8 {
-        (*self).idx()
-    }
-}
-pub struct BitIter<K: SmallKey> {
-    bits: u16,
+pub struct BitIter<'t, K: SmallKey> {
+    bits: u64,
     i: u8,
-    _p: core::marker::PhantomData<K>,
+    _p: core::marker::PhantomData<&'t K>,
 }
-impl<K: SmallKey> Iterator for BitIter<K> {
-    type Item = K;
-    fn next(&mut self) -> Option<K> {
-        while self.i < K::N {
-            let i = self.i;
-            self.i += 1;
-            if self.bits & (1u16 << i) != 0 {
-                return Some(K::from_idx(i));
-            }
+impl<'t, K: SmallKey + 't> Iterator for BitIter<'t, K> {
+    type Item = &'t K;
+    fn next(&mut self) -> Option<&'t K> {
+        // lowest set bit first = ascending key order; no inner scan loop, so a `for` over a set
+        // unrolls to exactly its number of elements
+        if self.bits == 0 {
+            return None;
         }
-        None
+        let i = self.bits.trailing_zeros() as usize;
+        self.bits &= self.bits - 1;
+        Some(&K::table()[i])
+    }
+}
+impl<'a, K: SmallKey> IntoIterator for &'a BTreeSet<K> {
+    type Item = &'a K;
+    type IntoIter = BitIter<'a, K>;
+    fn into_iter(self) -> BitIter<'a, K> {
+        self.iter()
     }
 }
 impl<K: SmallKey> FromIterator<K> for BTreeSet<K> {
